@@ -14,6 +14,7 @@ type decision struct {
 	val  int
 	alts []int
 	aux  uint64
+	list []uint64
 }
 
 type Excuse struct {
@@ -155,6 +156,100 @@ func (it *Interp) pushPC(c *Term) {
 		return
 	}
 	it.pc = append(it.pc, c)
+	// remember x == const facts for cheap branch evaluation
+	if c.Op == OEq && c.Args[1].IsConst() && !c.Args[0].IsConst() {
+		if it.known == nil {
+			it.known = map[*Term]*Term{}
+		}
+		if _, dup := it.known[c.Args[0]]; !dup {
+			it.known[c.Args[0]] = c.Args[1]
+			it.knownLog = append(it.knownLog, knownEntry{at: len(it.pc), t: c.Args[0]})
+			it.knownVer++
+		}
+	}
+}
+
+type knownEntry struct {
+	at int
+	t  *Term
+}
+
+func (it *Interp) truncPC(n int) {
+	it.pc = it.pc[:n]
+	for len(it.knownLog) > 0 && it.knownLog[len(it.knownLog)-1].at > n {
+		delete(it.known, it.knownLog[len(it.knownLog)-1].t)
+		it.knownLog = it.knownLog[:len(it.knownLog)-1]
+		it.knownVer++
+	}
+}
+
+// simplifyKnown rewrites t under the x == const facts of the path condition.
+func (it *Interp) simplifyKnown(t *Term) *Term {
+	if len(it.known) == 0 {
+		return t
+	}
+	if it.simpVer != it.knownVer {
+		it.simpVer = it.knownVer
+		it.simpCache = map[*Term]*Term{}
+	}
+	return it.simp(t, 0)
+}
+
+func (it *Interp) simp(t *Term, depth int) *Term {
+	if t.Op == OConst {
+		return t
+	}
+	if k, ok := it.known[t]; ok {
+		return k
+	}
+	if t.Op == OVar || depth > 64 {
+		return t
+	}
+	if r, ok := it.simpCache[t]; ok {
+		return r
+	}
+	st := it.St
+	args := make([]*Term, len(t.Args))
+	changed := false
+	for i, a := range t.Args {
+		args[i] = it.simp(a, depth+1)
+		if args[i] != a {
+			changed = true
+		}
+	}
+	r := t
+	if changed {
+		switch t.Op {
+		case ONot:
+			r = st.Not(args[0])
+		case OAnd:
+			r = st.And(args[0], args[1])
+		case OOr:
+			r = st.Or(args[0], args[1])
+		case OIte:
+			r = st.Ite(args[0], args[1], args[2])
+		case OEq:
+			r = st.Eq(args[0], args[1])
+		case OAdd, OSub, OMul, OUDiv, OURem, OSDiv, OSRem, OBAnd, OBOr, OBXor, OShl, OLShr, OAShr:
+			r = st.bin(t.Op, args[0], args[1])
+		case OUlt, OUle, OSlt, OSle:
+			r = st.cmp(t.Op, args[0], args[1])
+		case OBNot:
+			r = st.BNot(args[0])
+		case ONeg:
+			r = st.Neg(args[0])
+		case OExtract:
+			r = st.Extract(args[0], t.A, t.B)
+		case OZext:
+			r = st.Zext(args[0], t.S.W)
+		case OSext:
+			r = st.Sext(args[0], t.S.W)
+		case OConcat:
+			r = st.Concat(args[0], args[1])
+		}
+	}
+	it.simpCache[t] = r
+	return r
 }
 
 // inPC: is c syntactically one of the path-condition conjuncts (cheap implication test)?
@@ -200,7 +295,12 @@ func (it *Interp) branch(c *Term) bool {
 	it.Stats.Branches++
 	nc := it.St.Not(c)
 	var tf, ff bool
+	sc := it.simplifyKnown(c)
 	switch {
+	case sc.IsTrue():
+		tf, ff = true, false
+	case sc.IsFalse():
+		tf, ff = false, true
 	case it.inPC(c):
 		tf, ff = true, false
 	case it.inPC(nc):
@@ -277,7 +377,9 @@ func (it *Interp) assume(c *Term) {
 	it.pushPC(c)
 }
 
-// concretize forks over the feasible values of t.
+// concretize forks over the feasible values of t. The values are enumerated once
+// (model, block, repeat) and the choice is a single n-way decision, so that each
+// resulting path carries one equality instead of a chain of disequalities.
 func (it *Interp) concretize(t *Term) uint64 {
 	if t.IsConst() {
 		return t.Val
@@ -285,36 +387,46 @@ func (it *Interp) concretize(t *Term) uint64 {
 	if it.Concrete != nil {
 		panic("internal: symbolic concretize in concrete mode")
 	}
-	for {
-		if it.pos < len(it.trace) {
-			d := it.trace[it.pos]
-			it.pos++
-			cond := it.St.Eq(t, it.St.Const(t.S.W, d.aux))
-			if d.val == 1 {
-				it.pushPC(cond)
-				return d.aux
-			}
-			it.pushPC(it.St.Not(cond))
-			continue
+	if it.pos < len(it.trace) {
+		d := it.trace[it.pos]
+		it.pos++
+		v := d.list[d.val]
+		it.pushPC(it.St.Eq(t, it.St.Const(t.S.W, v)))
+		return v
+	}
+	var vals []uint64
+	var block []*Term
+	complete := false
+	for len(vals) < 1024 {
+		r, m := it.modelOf(block, []*Term{t})
+		if r == Unsat {
+			complete = true
+			break
 		}
-		r, vals := it.modelOf(nil, []*Term{t})
 		if r != Sat {
 			if it.job != nil {
 				it.job.inconclusive("solver " + r.String() + " while concretising")
 			}
-			panic(pathEnd{"abort", "cannot concretise"})
+			break
 		}
-		v := vals[0]
-		cond := it.St.Eq(t, it.St.Const(t.S.W, v))
-		d := decision{val: 1, aux: v}
-		if it.feasible(it.St.Not(cond)) {
-			d.alts = []int{0}
-		}
-		it.trace = append(it.trace, d)
-		it.pos++
-		it.pushPC(cond)
-		return v
+		vals = append(vals, m[0])
+		block = append(block, it.St.Ne(t, it.St.Const(t.S.W, m[0])))
 	}
+	if len(vals) == 0 {
+		panic(pathEnd{"abort", "cannot concretise"})
+	}
+	if !complete && it.job != nil {
+		it.job.inconclusive("concretisation truncated at 1024 values")
+	}
+	sort.Slice(vals, func(a, b int) bool { return vals[a] < vals[b] })
+	d := decision{val: 0, list: vals}
+	for i := 1; i < len(vals); i++ {
+		d.alts = append(d.alts, i)
+	}
+	it.trace = append(it.trace, d)
+	it.pos++
+	it.pushPC(it.St.Eq(t, it.St.Const(t.S.W, vals[0])))
+	return vals[0]
 }
 
 // tryConst returns a constant if t can take only one value under the path condition
@@ -447,7 +559,7 @@ func (it *Interp) tryMerge(fr *frame, block *ssa.BasicBlock, c *Term) (*ssa.Basi
 		}()
 		// weaken conditions added under the guard
 		added := append([]*Term(nil), it.pc[base+1:]...)
-		it.pc = it.pc[:base]
+		it.truncPC(base)
 		for _, a := range added {
 			it.pushPC(it.St.Implies(guard, a))
 		}
@@ -455,12 +567,12 @@ func (it *Interp) tryMerge(fr *frame, block *ssa.BasicBlock, c *Term) (*ssa.Basi
 	}
 	nc := it.St.Not(c)
 	if armT != nil && !runArm(armT, c) {
-		it.pc = it.pc[:savedPC]
+		it.truncPC(savedPC)
 		it.Stats.MergeFail++
 		return nil, nil, false
 	}
 	if armF != nil && !runArm(armF, nc) {
-		it.pc = it.pc[:savedPC]
+		it.truncPC(savedPC)
 		it.Stats.MergeFail++
 		return nil, nil, false
 	}
@@ -481,7 +593,7 @@ func (it *Interp) tryMerge(fr *frame, block *ssa.BasicBlock, c *Term) (*ssa.Basi
 	}
 	iT, iF := idxOf(predT), idxOf(predF)
 	if iT < 0 || iF < 0 {
-		it.pc = it.pc[:savedPC]
+		it.truncPC(savedPC)
 		return nil, nil, false
 	}
 	var vals []Value
@@ -493,7 +605,7 @@ func (it *Interp) tryMerge(fr *frame, block *ssa.BasicBlock, c *Term) (*ssa.Basi
 		}
 		v, ok := it.iteValue(c, it.get(fr, phi.Edges[iT]), it.get(fr, phi.Edges[iF]))
 		if !ok {
-			it.pc = it.pc[:savedPC]
+			it.truncPC(savedPC)
 			it.Stats.MergeFail++
 			return nil, nil, false
 		}
@@ -686,7 +798,7 @@ type JobOpts struct {
 }
 
 func (it *Interp) beginPath() {
-	it.pc = it.pc[:0]
+	it.truncPC(0)
 	it.pos = 0
 	it.steps = 0
 	it.frames = 0
